@@ -339,6 +339,20 @@ def rule_SQ4(ctx, tier):
             continue
         sh = sql.select_shape(sel[0])
         shapes[name] = sh
+        # the row set is not truncated: no LIMIT / OFFSET anywhere in the text the method assembles (also in fragments appended at
+        # run time) — several users can hold an appointment for one locator, so "as many rows as keys asked for" is not enough
+        import re as _re
+        cut = []
+        for fid in P.family(b.id):
+            fb_ = P.bodies[fid]
+            for bb_ in fb_.rpo():
+                for x_ in fb_.blocks[bb_]["s"] + [fb_.term(bb_)]:
+                    for _, v_ in _consts_in(x_):
+                        if isinstance(v_, str) and _re.search(r"\b(LIMIT|OFFSET)\b", v_, _re.I) and not _re.search(r"[a-z]{3,} (limit|offset) [a-z]{3,}", v_):
+                            cut.append(v_.strip()[:30])
+        if cut:
+            rr.fail("query-truncated:%s" % name, "DBM::%s assembles a statement with `%s`: the pipeline relies on every matching row (%s)" % (name, cut[0], why), where=b.span)
+            continue
         if sh["tables"] == tables and sh["where"] == where and sh["anti_join"] == anti:
             rr.ok("%s: FROM %s WHERE %s" % (name, tables, where), sample={"rule": "SQ4", "method": name, "shape": sh, "why": why})
         else:
@@ -580,6 +594,24 @@ def rule_SQ6(ctx, tier):
                         rr.ok("%s: %s" % (shortfn(bid), r[1]), sample={"rule": "SQ6", "function": shortfn(bid), "statement": st[:120], "why unique": r[1]})
                     else:
                         rr.fail("query_row-not-unique:%s:%s" % (shortfn(bid), r[1]), "%s DBM: `%s` reads `%s` with query_row, but the statement does not fix %s of table `%s`'s primary key: with several matching rows the first one wins silently (rows of other towers / users sharing the fixed part)" % (side, shortfn(bid), st[:110], r[2], r[1]), where=b.line_of(bb))
+    # "latest row per group" joins: a derived table `(SELECT g, MAX(x) .. GROUP BY g) AS d` only selects the latest row of each group if
+    # it is tied to the outer tables on g as well as on the aggregate; tied on the aggregate alone it pairs every group with every
+    # row that happens to carry some group's maximum (two towers registered in the same block share their expiries)
+    import re as _re
+    for side, prefix in (("tower", TDBM), ("client", PDBM)):
+        for bid, b in sorted(P.bodies.items()):
+            if not bid.startswith(prefix) or "::tests" in bid:
+                continue
+            for bb, st in sql.body_sql(b):
+                stn = sql.norm(st)
+                for md in _re.finditer(r"\(\s*SELECT (.*?) GROUP BY (\w+)\s*\)\s*(?:AS\s+)?(\w+)", stn, _re.I):
+                    g, alias = md.group(2), md.group(3)
+                    rest = stn[:md.start()] + " " + stn[md.end():]
+                    tied = _re.search(r"\b\w+\.%s\s*=\s*%s\.%s\b|\b%s\.%s\s*=\s*\w+\.%s\b" % (g, alias, g, alias, g, g), rest, _re.I)
+                    if tied:
+                        rr.ok("%s: grouped sub-select `%s` tied on its group column %s" % (shortfn(bid), alias, g))
+                    else:
+                        rr.fail("grouped-subquery-untied:%s:%s" % (shortfn(bid), alias), "%s DBM: in `%s` the grouped sub-select `%s` (one row per %s) is not joined on `%s`: rows of one %s are paired with the aggregate of another, and the loader keeps whichever comes last" % (side, shortfn(bid), alias, g, g, g), where=b.line_of(bb))
     rr.require_floor(12, "query_row statements")  # 17 on the reference tree; merging two reads into one correct join is fine
     return rr
 
@@ -812,7 +844,7 @@ def _consts_in(x):
     """(kind, value) of the string constants inside an extracted statement / terminator"""
     out = []
     if isinstance(x, dict):
-        for key in ("str",):
+        for key in ("str", "bytes"):
             if isinstance(x.get(key), str):
                 out.append(("const", x[key]))
         for v in x.values():
@@ -880,6 +912,25 @@ def rule_SQ8(ctx, tier):
                     continue
                 nums = [k for c, k in pairs if k is not None]
                 plain = [c for c, k in pairs if k is None]
+                # an UPDATE addresses its row by the primary key and nothing else: the generic executor answers NotFound when no row was
+                # touched and the callers unwrap that, so any further condition turns "nothing to change" into a panic (or a lost write)
+                mupd = re.match(r"UPDATE (\w+) SET .*? WHERE (.*)$", st, re.I)
+                if mupd:
+                    sch_ = schema(ctx, "teos::dbm::TABLES" if side == "tower" else "watchtower_plugin::dbm::TABLES") or {}
+                    pk_ = [c_.lower() for c_ in (sch_.get(mupd.group(1)) or {}).get("pk", [])]
+                    conj = [c_.strip() for c_ in re.split(r"\bAND\b", mupd.group(2), flags=re.I)]
+                    cols_ = []
+                    plain_ok = True
+                    for c_ in conj:
+                        mc = re.match(r"^\(?\s*(\w+)\s*=\s*\(?(\?\d*|:\w+)\)?\s*\)?$", c_)
+                        if mc:
+                            cols_.append(mc.group(1).lower())
+                        else:
+                            plain_ok = False
+                    if plain_ok and pk_ and sorted(cols_) == sorted(pk_):
+                        rr.ok("%s: UPDATE %s addressed by its primary key only" % (shortfn(bid), mupd.group(1)))
+                    else:
+                        rr.fail("update-where-not-key:%s" % shortfn(bid), "%s DBM: `%s` does not address its row by exactly the primary key %s of `%s` (WHERE %s): with a further condition a row that exists but does not satisfy it counts as 'not found' — the executor answers NotFound, which the callers unwrap while holding the database lock" % (side, st[:100], pk_, mupd.group(1), mupd.group(2)[:60]), where=b.line_of(bb))
                 # every numbered placeholder of the text counts for the 1..n discipline, also those inside an expression
                 allnums = [int(x) for x in re.findall(r"\?(\d+)", st)]
                 # what an UPDATE / upsert persists is the bound value itself: the in-memory twin of the write holds exactly that value
